@@ -424,6 +424,9 @@ pub fn run(e: &Engine) {
     if e.tier == Tier::Thorough {
         crate::fuzzrun::campaign(e, "roundtrip", 300_000, 700);
     }
+    let huge = vec![Recipe { kind: 1, n: e.tier.pick(2_300_000, 4_000_000), seed: e.seed ^ 0x16, fanout: 16, keylen: 12, values: 2 }];
+    e.run_list("one-file-over-16MiB", &huge, |r| r.to_json(), check_recipe);
+    e.require_class("file_over_16MiB", 1);
     e.require_class("has_empty_key", 1);
     e.require_class("cache_evicted", 1);
     e.require_class("fanout_256", 1);
